@@ -419,6 +419,9 @@ def check_c04(out, tier):
                 c["rawText"] = text
             notrip.append(c)
     run_and_judge(out, notrip, [], mine, crash_is_mine=True, label="documents without triples")
+    # every (lexical class, declared kind), quoted and as Turtle / TSV shorthand, through the hand-written readers: none may raise
+    from harness import typing_leg
+    typing_leg.leg(out, "C04", ["turtle_iter", "tsv_spo", "nt"])
     pinned_cases(out, "C04", [], mine, crash_is_mine=True)
     from harness import simulate
     simulate.replay(out, L2_BEHAVIOURS[tier], [], mine, crash_is_mine=True)
@@ -610,7 +613,8 @@ def check_c10(out, tier):
             cfg["spelling"] = rnd.choice(["full", "bracket", "prefixed"])
         elif r < .85 or ip != M.RDF_TYPE:
             cfg["mode"] = "shapemap"
-            cfg["items"] = shape_map_items(rnd, T, classes if ip == M.RDF_TYPE else [], wildcards=True)
+            # (with a custom instantiation property rdf:type is an ordinary property: 'a' in a pattern still means rdf:type)
+            cfg["items"] = shape_map_items(rnd, T, classes if ip == M.RDF_TYPE else gen.classes_of(T, M.RDF_TYPE), wildcards=True)
             cfg["smSyntax"] = rnd.choice(["fsm", "json"])
         else:
             cfg["mode"] = "mixed"
